@@ -105,4 +105,38 @@ def FuncDecl.params : FuncDecl → List String | .mk p _ _ => p
 def FuncDecl.results : FuncDecl → List (String × Ty) | .mk _ r _ => r
 def FuncDecl.body : FuncDecl → List Stmt | .mk _ _ b => b
 
+/-! ### the goroutine a constructor starts, and the finalizer it registers
+
+Printed from `newXsyncMap` / `newXsyncMapOf` by the same tool; the printer accepts exactly the shape
+`if guard { go func() { x := time.NewTicker(interval); defer x.Stop(); for { select { case <-ch: body … } } }() }` and
+`runtime.SetFinalizer(target, func(m *T) { close(m.f) })` and fails loudly on anything else. -/
+
+/-- a channel a `select` clause receives from -/
+inductive Chan where
+  /-- `<-x.C` for the local `x := time.NewTicker(…)` -/
+  | tickerC (x : String)
+  /-- `<-c.f`: a channel field of the cache object -/
+  | field (f : String)
+  deriving DecidableEq, Repr
+
+structure GoLoop where
+  /-- condition of the enclosing `if` -/
+  guard : Expr
+  ticker : String
+  /-- argument of `time.NewTicker` -/
+  interval : Expr
+  /-- `defer x.Stop()` is present -/
+  deferStop : Bool
+  /-- the clauses of the `select` inside the endless `for` -/
+  cases : List (Chan × List Stmt)
+  /-- variables of the constructor the function literal captures, in order of first use -/
+  captures : List String
+
+structure Finalizer where
+  /-- the variable `runtime.SetFinalizer` is called on -/
+  target : String
+  /-- the channel field the finalizer closes -/
+  closes : String
+  deriving DecidableEq, Repr
+
 end Deep
